@@ -124,6 +124,51 @@ def states(tier: str, prop: str):
     return out
 
 
+def clone_group_specs():
+    """Targeted family for operations on clone *groups* (remove(with_clones=True), set_data(with_clones=
+    True)): three parents p, q, r each holding a clone x; every x optionally has a child d, every parent
+    optionally has a further child d (a sibling of x), and x itself may be nested once more."""
+    import itertools
+
+    out = []
+    for kids_ in itertools.product((False, True), repeat=3):
+        for sibs in itertools.product((False, True), repeat=3):
+            if sum(kids_) + sum(sibs) == 0 or sum(kids_) + sum(sibs) > 4:
+                continue
+            nodes = []
+            for k, lab in enumerate("pqr"):
+                pi = len(nodes)
+                nodes.append((-1, lab, None, None))
+                xi = len(nodes)
+                nodes.append((pi, "x", None, None))
+                if kids_[k]:
+                    nodes.append((xi, "d", None, None))
+                if sibs[k]:
+                    nodes.append((pi, "d", None, None))
+            out.append(gen.Spec(tuple(nodes)))
+    # a clone nested inside another clone's branch
+    out.append(gen.Spec(((-1, "p", None, None), (0, "x", None, None), (1, "q", None, None), (2, "x", None, None), (3, "d", None, None), (2, "d", None, None), (-1, "x", None, None))))
+    return out
+
+
+def _targeted_chunk(chunk, prop):
+    res = Result(prop)
+    for spec in chunk:
+        idx = [i for i, r in enumerate(spec.nodes) if r[1] == "x"]
+        cand = [("remove", i, keep, clones) for i in idx for keep in (False, True) for clones in (False, True)]
+        cand += [("set_data", i, lab, None, wc) for i in idx for lab in ("d", "n") for wc in (None, False, True)]
+        cand += [("move", i, p, None) for i in idx for p in (-1,) + tuple(j for j, r in enumerate(spec.nodes) if r[1] in "pqr")]
+        for op in cand:
+            w = ops.World(spec)
+            before = view.obs(w.tree)
+            diffs = ops.step(w, op)
+            res.add_case(f"{spec.short()} :: {op}", nontrivial=view.obs(w.tree) != before or bool(diffs))
+            for clause, text in diffs:
+                if prop in props_of(op, clause, text):
+                    res.violations.append(Violation(prop, clause, FUNC_OF_OP[op[0]], {"kind": "op", "spec": _spec_json(spec), "flavour": "str", "op": _op_json(op)}, clip(text)))
+    return res
+
+
 def sweep(prop: str, tier: str) -> Result:
     total = Result(prop)
     groups = GROUPS_OF[prop]
@@ -137,6 +182,9 @@ def sweep(prop: str, tier: str) -> Result:
         f"all ordered forests with <= {3 if tier == 'quick' else 4} nodes x labelings over {{a,b,c}} (clones incl.), "
         f"equal-but-distinct pairs, typed trees <= {2 if tier == 'quick' else 3} nodes x kinds {{k1,k2}}; every operation/argument combination of ops.enum_ops"
     )
+    if prop in ("C01", "C02", "C03", "C04", "C13"):
+        total.merge(parallel(_targeted_chunk, clone_group_specs(), prop, prop=prop))
+        total.bounds["clone groups (targeted)"] = "three parents each holding a clone x, with/without a child d below x and a sibling d next to x (<= 4 extras), plus a clone nested in a clone: remove (all flag combinations), set_data (with_clones None/False/True) and move_to of every clone"
     total.merge(histories(prop, tier))
     return total
 
